@@ -17,6 +17,7 @@ func init() {
 			"R7.2: an offer is labelled with the publisher's true id and username (the results of the up connection's User(), which reads the owning client), its label and the down connection's own id. " +
 			"R7.3: deleting an up connection with push set tells every other member (close = PushConn with a nil connection) on every path; every call site passes push as recorded in the frozen table; leaving deletes every up and down connection before DelClient; a WHIP session closing fans the close out too. " +
 			"R7.4: when nothing of a stream is requested the subscriber is sent a close for it; a failed negotiation closes the down connection with the error; closes act on the client's own connections. " +
+			"R7.7: the delayed announcement scheduled by pushConn is skipped only when the stream's pushed flag was found set (an announcement happened since it was scheduled): it alone may still carry the 'replaces' id of a stream that was itself replaced, or closed, before its first announcement. " +
 			"R7.6: replaceTracks reports 'unchanged' only when there is nothing to add and nothing to remove, and applies every difference; pushDownConn closes the downstream it replaces on every exit unless a successful offer announced the replacement; a stream marked closed accepts no new subscriber, and delUpConn marks it before announcing the close. " +
 			"R7.5: the requested kinds select the first audio track, the first video track for 'video', the last for 'video-low' (and limit the spatial layer when there is no separate low-quality track).",
 		NotDecided: []string{
@@ -732,6 +733,7 @@ func runC07(c *Ctx) {
 // R7.6: the hand-shakes that keep "offered" and "closed" paired.
 func runC07Pairing(c *Ctx) {
 	p := c.P
+	defer runC07Delayed(c)
 	c.Rule("R7.6", "E2/E3", "a narrowed request is applied; a replaced downstream is always closed; a closed stream accepts no new subscriber", 6)
 	eng := p.Facts()
 	// (a) replaceTracks says "unchanged" only when there is nothing to add and nothing to delete
@@ -1130,4 +1132,139 @@ func flagFact(st *State, set map[types.Object]bool, val bool) bool {
 		}
 	}
 	return false
+}
+
+// R7.7: pushConn clears up.pushed and starts a goroutine that, 200 ms later,
+// announces the stream unless somebody else did in the meantime.  Every path
+// of that goroutine which ends without calling pushConnNow must have found the
+// pushed flag set - tested on the field before it is stored again, or on a
+// local that is a plain copy of it.
+func runC07Delayed(c *Ctx) {
+	p := c.P
+	c.Rule("R7.7", "E3", "the delayed announcement is skipped only when the stream was announced in the meantime", 1)
+	pc := p.Func("rtpconn", "", "pushConn")
+	fPushed := p.Field("rtpconn", "rtpUpConnection", "pushed")
+	if pc == nil || fPushed == nil {
+		c.Unknown("R7.7", "anchors", 0, "pushConn / rtpUpConnection.pushed not found")
+		return
+	}
+	var lit *ast.FuncLit
+	nlit := 0
+	ast.Inspect(pc.Body(), func(n ast.Node) bool {
+		if gs, ok := n.(*ast.GoStmt); ok {
+			if fl, ok := unparen(gs.Call.Fun).(*ast.FuncLit); ok {
+				lit = fl
+				nlit++
+			}
+		}
+		return true
+	})
+	if nlit != 1 || len(lit.Body.List) == 0 {
+		c.Bad("R7.7", "pushConn: delayed announcement", pc.Pos(), fmt.Sprintf("%d goroutine literals in pushConn (expected one)", nlit))
+		return
+	}
+	ls := p.SrcOfLit(lit)
+	if ls == nil {
+		c.Unknown("R7.7", "anchors", 0, "literal not indexed")
+		return
+	}
+	info := ls.Pkg.TypesInfo
+	ff := p.Facts().Analyze(ls)
+	isPushedSel := func(e ast.Expr) bool {
+		se, ok := unparen(e).(*ast.SelectorExpr)
+		if !ok {
+			return false
+		}
+		sel := info.Selections[se]
+		return sel != nil && sel.Obj() == types.Object(fPushed)
+	}
+	// locals that are plain copies of the flag (one definition each)
+	ndef := map[types.Object]int{}
+	copyOf := map[types.Object]bool{}
+	ast.Inspect(lit.Body, func(n ast.Node) bool {
+		as, ok := n.(*ast.AssignStmt)
+		if !ok {
+			return true
+		}
+		for i, l := range as.Lhs {
+			id, ok := unparen(l).(*ast.Ident)
+			if !ok {
+				continue
+			}
+			o := info.ObjectOf(id)
+			ndef[o]++
+			if len(as.Rhs) == len(as.Lhs) && isPushedSel(as.Rhs[i]) {
+				copyOf[o] = true
+			}
+		}
+		return true
+	})
+	for o := range copyOf {
+		if ndef[o] != 1 {
+			delete(copyOf, o)
+		}
+	}
+	ncall := 0
+	containsCall := func(n ast.Node) bool {
+		hit := false
+		ast.Inspect(n, func(m ast.Node) bool {
+			if call, ok := m.(*ast.CallExpr); ok && fnIs(calleeOf(&CallSite{Call: call, In: ls}), "rtpconn", "", "pushConnNow") {
+				hit = true
+			}
+			return true
+		})
+		return hit
+	}
+	ast.Inspect(lit.Body, func(n ast.Node) bool {
+		if call, ok := n.(*ast.CallExpr); ok && fnIs(calleeOf(&CallSite{Call: call, In: ls}), "rtpconn", "", "pushConnNow") {
+			ncall++
+		}
+		return true
+	})
+	storesFlag := func(n ast.Node) bool {
+		hit := false
+		ast.Inspect(n, func(m ast.Node) bool {
+			if as, ok := m.(*ast.AssignStmt); ok {
+				for _, l := range as.Lhs {
+					if isPushedSel(l) {
+						hit = true
+					}
+				}
+			}
+			return true
+		})
+		return hit
+	}
+	from := ast.Node(lit.Body.List[0])
+	pos, found := ff.PathSearchPSX(from, 0, func(n ast.Node, _ *State, flag int) (int, bool) {
+		if containsCall(n) {
+			return flag, true
+		}
+		if storesFlag(n) {
+			flag = 1
+		}
+		return flag, false
+	}, nil, func(flag int, st *State) bool {
+		for _, f := range st.Facts() {
+			if f.Op != "true" || !f.Pos || f.A == nil {
+				continue
+			}
+			if f.A.K == 'v' && copyOf[f.A.Obj] {
+				return false
+			}
+			if flag == 0 && f.A.K == 'f' && f.A.Obj == types.Object(fPushed) {
+				return false
+			}
+		}
+		return true
+	})
+	if containsCall(from) || storesFlag(from) {
+		found, pos = true, from.Pos() // the first statement is expected to be the delay
+	}
+	at := pc.Pos()
+	if found && pos.IsValid() {
+		at = pos
+	}
+	c.Check(!found && ncall > 0, "R7.7", "pushConn: delayed announcement", at, "every path of the delayed goroutine that does not announce found up.pushed set",
+		"the delayed announcement can be skipped although nobody announced the stream since it was scheduled: a 'replaces' id it carries (of a stream that was silently replaced before its first announcement) never reaches the subscribers, who keep the replaced stream open")
 }
